@@ -483,7 +483,31 @@ fn mutate_graph(rng: &mut Rng, g: &mut Vec<GAtom>) {
     if with_bonds.is_empty() { g[0].bonds.push((0, rng.below(n + 2))); return }
     let a = *rng.pick(&with_bonds);
     let i = rng.below(g[a].bonds.len());
-    match rng.below(5) {
+    match rng.below(8) {
+        5 => {                                                           // duplicate a whole bond: both halves, each at a random place
+            let (k, t) = g[a].bonds[i];
+            let j = rng.below(g[a].bonds.len() + 1);
+            g[a].bonds.insert(j, (k, t));
+            if t < n && t != a {
+                if let Some(p) = g[t].bonds.iter().position(|(_, x)| *x == a) {
+                    let back = g[t].bonds[p];
+                    let j2 = rng.below(g[t].bonds.len() + 1);
+                    g[t].bonds.insert(j2, back);
+                }
+            }
+        }
+        6 => {                                                           // give both halves the same directional kind
+            let (_, t) = g[a].bonds[i];
+            let k = 6 + rng.below(2);
+            g[a].bonds[i].0 = k;
+            if t < n { if let Some(p) = g[t].bonds.iter().position(|(_, x)| *x == a) { g[t].bonds[p].0 = k } }
+        }
+        7 => {                                                           // retarget both halves to a third atom: two half bonds
+            let (_, t) = g[a].bonds[i];
+            let c = rng.below(n);
+            g[a].bonds[i].1 = c;
+            if t < n { if let Some(p) = g[t].bonds.iter().position(|(_, x)| *x == a) { g[t].bonds[p].1 = c } }
+        }
         0 => { g[a].bonds.remove(i); }                                   // drop a half-bond
         1 => { g[a].bonds[i].1 = rng.below(n + 2); }                     // retarget
         2 => { let b = g[a].bonds[i]; let j = rng.below(g[a].bonds.len() + 1); g[a].bonds.insert(j, b); } // duplicate
@@ -571,8 +595,37 @@ fn stereo_family<W: Write>(out: &mut W) {
     }
 }
 
+/// an atom of high degree that is not the root: every degree around the thresholds of small-slice special cases, the
+/// arrival bond at several positions of its bond list, neighbours all distinguishable (isotope labels), with and
+/// without ring closures among its bonds
+fn hub_family<W: Write>(thorough: bool, out: &mut W) {
+    let degs: &[usize] = if thorough { &[5, 9, 16, 17, 20, 21, 31, 32, 33, 34, 35, 40, 63, 64, 65, 100, 130, 260] } else { &[5, 17, 21, 32, 33, 34, 35, 40, 65, 130] };
+    for deg in degs.iter().copied() {
+        let mut arrivals = vec![0usize, 1, 4, 7, deg / 2, deg - 1];
+        arrivals.retain(|a| *a < deg);
+        arrivals.dedup();
+        for arrival in arrivals {
+            for rings in [false, true] {
+                // atom 0 = entry neighbour (root), atom 1 = hub, atoms 2.. = substituents labelled by isotope
+                let mut g: Vec<GAtom> = vec![GAtom { kind: "[900,*,_,_,_,_]".to_string(), bonds: vec![(0, 1)] }, GAtom { kind: "[901,*,_,_,_,_]".to_string(), bonds: vec![] }];
+                let mut order: Vec<usize> = (2..deg + 1).collect();
+                order.insert(arrival, 0);
+                for t in order.iter() { g[1].bonds.push((0, *t)) }
+                for i in 2..deg + 1 { g.push(GAtom { kind: format!("[{},*,_,_,_,_]", i), bonds: vec![(0, 1)] }) }
+                if rings {
+                    // every third substituent pair is joined, so ring closures and branches alternate in the hub's list
+                    let mut i = 2;
+                    while i + 1 <= deg { add_edge(&mut g, i, i + 1, 0); i += 3 }
+                }
+                graph_req(out, &g);
+            }
+        }
+    }
+}
+
 fn graph<W: Write>(_t: &Tables, thorough: bool, rng: &mut Rng, out: &mut W) {
     graph_req(out, &[]);
+    hub_family(thorough, out);
     // exhaustive small graphs
     all_small_graphs(1, &[0], out, true);
     all_small_graphs(2, &[0, 6], out, true);
@@ -736,6 +789,9 @@ pub fn family(name: &str, n: usize) -> String {
         "ringlist" => { let mut s = String::from("C1CC1"); for _ in 1..n / 3 { s.push_str(".C1CC1") } s }
         "ringchain" => { let mut s = String::new(); for _ in 0..n / 3 { s.push_str("C1CC1") } s }
         "digits" => { let mut s = String::from("C"); for i in 0..n { s.push_str(&format!("%{:02}", 10 + i % 80)); } for i in 0..n { s.push_str(&format!("%{:02}", 10 + i % 80)); } s }
+        "branchchain" => { let mut s = String::from("C("); for _ in 0..n.saturating_sub(2) { s.push('C') } s.push_str(")C"); s }
+        "macrocycle" => { let mut s = String::from("C1"); for _ in 0..n.saturating_sub(2) { s.push('C') } s.push_str("C1"); s }
+        "comb" => { let mut s = String::new(); for _ in 0..n / 2 { s.push_str("C(N)") } s.push('O'); s }
         "nested" => { let mut s = String::from("C"); for _ in 1..n { s.push_str("(C") } for _ in 1..n { s.push(')') } s }
         "nested2" => { let mut s = String::new(); for _ in 0..n { s.push_str("C(C)(") } s.push('C'); for _ in 0..n { s.push(')') } s }
         _ => String::new(),
